@@ -6,7 +6,7 @@
    (record [leaves]); everything else is proved. *)
 From OxiVerif Require Import Base.Common Spec.Adam7 Spec.Sem Model.Types Model.Options Model.ScanLines Model.Interlace
   Model.BitDepth Model.Color Model.Palette Model.Reductions
-  Proofs.Bridge Proofs.PixelProofs Proofs.ImageLift Proofs.LiftReductions Proofs.LiftColor Proofs.LiftPalette Proofs.LiftLines Proofs.LiftBits Proofs.LiftInterlace Proofs.LiftDeinterlace Proofs.ReductionInv.
+  Proofs.Bridge Proofs.PixelProofs Proofs.ImageLift Proofs.LiftReductions Proofs.LiftColor Proofs.LiftPalette Proofs.LiftLines Proofs.LiftBits Proofs.LiftInterlace Proofs.LiftDeinterlace Proofs.LiftMzeng Proofs.ReductionInv.
 
 (* the invariant: well-formed and means [pic] *)
 Definition means (pic : picture) (i : image) : Prop := wf i /\ sem i = Some pic.
@@ -49,9 +49,11 @@ Qed.
 
 (* ---------------------------------------------------------------- what is still assumed *)
 Record leaves : Prop := {
-  leaf_battiato : forall i r pic, means pic i -> sorted_palette_battiato i = Ok (Some r) -> means pic r;
-  leaf_mzeng : forall i r pic, means pic i -> sorted_palette_mzeng i = Ok (Some r) -> means pic r
+  leaf_battiato : forall i r pic, means pic i -> sorted_palette_battiato i = Ok (Some r) -> means pic r
 }.
+
+Lemma leaf_mzeng (L : leaves) i r pic : means pic i -> sorted_palette_mzeng i = Ok (Some r) -> means pic r.
+Proof. intros [Hwf Hsem] H. destruct (sorted_palette_mzeng_sem i r pic Hwf Hsem H). split; assumption. Qed.
 
 Lemma leaf_interlace (L : leaves) i il r pic : means pic i -> change_interlacing i il = Ok (Some r) -> means pic r.
 Proof.
